@@ -81,14 +81,18 @@ def setup_proc(w, pid, kind, exit_at, status, t0):
     return end if exit_at == 0 else None
 
 
+U = 200            # trace units (0.5 us) per model half-unit (0.05 ms)
+
+
 def run_wait(cases):
-    """Forked: replay model configurations on the real wait()."""
+    """Forked: run model configurations on the real wait(); return for every
+    case a record for the contract monitor (WaitTrace.tla) and the list of
+    deviations from the reference poll schedule of Wait.tla."""
     w, ps = template()
     from psutil import _psposix
     out = []
     for i, (ret, again) in enumerate(cases):
         cfg = ret["cfg"]
-        # fresh world state
         for p in list(w.procs):
             if p != w.caller_pid:
                 del w.procs[p]
@@ -120,39 +124,38 @@ def run_wait(cases):
         except ValueError:
             got = {"kind": "ValueError"}
         except Exception as ex:  # noqa: BLE001
-            got = {"kind": repr(ex)}
-        bad = []
+            got = {"kind": repr(ex)[:60]}
+        at = w.mono - t0
+        syscalls = len(w.log) - nsys
+        sl = [d for (_, d) in w.sleep_log]
+        dev = []
         exp = ret["res"]
         if got["kind"] != exp["kind"] or got.get("code") != exp.get("code"):
-            bad.append("wait(%r) -> %r, specification predicts %r" % (timeout, got, exp))
-        if got["kind"] == "TimeoutExpired" and (got["seconds"] != timeout or got["pid"] != pid):
-            bad.append("TimeoutExpired(seconds=%r, pid=%r) for wait(%r) on pid %d"
-                       % (got["seconds"], got["pid"], timeout, pid))
-        sl = [d for (_, d) in w.sleep_log]
+            dev.append("outcome %r, reference %r" % (got, exp))
         exp_sl = [s * H for s in ret["sleeps"]]
         if len(sl) != len(exp_sl) or any(abs(a - b) > 1e-12 for a, b in zip(sl, exp_sl)):
-            bad.append("sleep() calls %r, specification predicts %r" % (sl[:12], exp_sl[:12]))
-        if abs((w.mono - t0) - ret["at"] * H) > 1e-9:
-            bad.append("returned at t=%.6f, specification predicts %.6f" % (w.mono - t0, ret["at"] * H))
-        if exp["kind"] == "ValueError" and len(w.log) != nsys:
-            bad.append("system calls before the argument check: %r" % (w.log[nsys:],))
-        if again is not None and proc is not None and not bad:
+            dev.append("sleeps %r, reference %r" % (sl[:12], exp_sl[:12]))
+        againr, againsys = "skipped", 0
+        if again is not None and proc is not None and got["kind"] in ("none", "value"):
             n1, s1 = len(w.log), len(w.sleep_log)
             try:
                 v2 = proc.wait(timeout)
                 g2 = {"kind": "none"} if v2 is None else {"kind": "value", "code": int(v2)}
             except Exception as ex:  # noqa: BLE001
-                g2 = {"kind": repr(ex)}
-            if g2.get("kind") != got["kind"] or g2.get("code") != got.get("code"):
-                bad.append("second wait() -> %r, first returned %r" % (g2, got))
-            if len(w.log) != n1 or len(w.sleep_log) != s1:
-                bad.append("second wait() made system calls %r" % (w.log[n1:],))
-        for (kp, ks, _) in w.kill_log:
-            if kp <= 0 or ks != 0:
-                bad.append("os.kill(%d, %d)" % (kp, ks))
+                g2 = {"kind": repr(ex)[:60]}
+            againr = "same" if (g2.get("kind") == got["kind"] and g2.get("code") == got.get("code")) else "different"
+            againsys = (len(w.log) - n1) + (len(w.sleep_log) - s1)
+        badkill = [(kp, ks) for (kp, ks, _) in w.kill_log if kp <= 0 or ks != 0]
         del w.kill_log[:]
-        if bad:
-            out.append((i, "; ".join(bad) + "  [cfg %r]" % (cfg,)))
+        codes = {"exit0": 0, "exit7": 7, "sigkill": -9, "sigterm": -15}
+        rec = {"kind": cfg["kind"], "exitAt": -1 if cfg["exitAt"] == NEVER else cfg["exitAt"] * U,
+               "timeout": -1 if to == NONE else (-2 if to == NEG else to * U),
+               "expcode": codes[cfg["status"]], "out": got["kind"] if got["kind"] in ("none", "value", "TimeoutExpired", "ValueError") else "other",
+               "code": got.get("code", 0), "at": int(round(at / H * U)),
+               "sleeps": [int(round(d / H * U)) for d in sl], "syscalls": syscalls,
+               "secondsok": got.get("seconds") == timeout, "pidok": got.get("pid") == pid,
+               "again": againr, "againsyscalls": againsys, "badkill": len(badkill), "raw": repr(got)[:80]}
+        out.append((rec, dev))
     return out
 
 
@@ -263,6 +266,51 @@ def check_wait_procs(ctx, n):
         ctx.sample({"kind": "wait_procs execution", "record": lines[0]})
 
 
+def judge_wait(ctx, cases):
+    chunks = [cases[i:i + 60] for i in range(0, len(cases), 60)]
+    res = forkpool.map_fork(run_wait, chunks)
+    recs, devs = [], 0
+    for ch, (st, val) in zip(chunks, res):
+        if st != "ok":
+            raise core.Machinery("wait runner failed: %s" % (val,))
+        for (rec, dev), case in zip(val, ch):
+            recs.append(rec)
+            if dev:
+                devs += 1
+                if len(ctx.notes) < 6:
+                    ctx.notes.append("deviation from the reference poll schedule (not a violation by itself): %s [cfg %r]"
+                                     % ("; ".join(dev), case[0]["cfg"]))
+            if rec["badkill"]:
+                ctx.disagree("wait:kill", "wait() signalled a process: %r" % (rec,), rec)
+    d = tlc.scratch()
+    tf = os.path.join(d, "t.ndjson")
+    with open(tf, "w") as f:
+        for r0 in recs:
+            f.write(json.dumps(r0) + "\n")
+    cfg = os.path.join(d, "t.cfg")
+    tlc.write_cfg(cfg, {"Cap": CAP * U, "First": 2 * U}, invariants=["Accepted"])
+    r = tlc.run("WaitTrace", cfg, workers=1, env={"TRACE_FILE": tf}, timeout=1500)
+    ctx.tlc("wait-trace-validation", r)
+    shutil.rmtree(d, ignore_errors=True)
+    if r.violated or r.distinct < len(recs):
+        raise core.Machinery("wait trace validation did not complete: %s" % r.violated)
+    ctx.cov["traces_validated_against_impl"] += len(recs)
+    ctx.cov.setdefault("replay", {})["wait-configurations"] = {"executions": len(recs),
+                                                               "deviating_from_reference_schedule": devs}
+    for r0 in recs:
+        ctx.case(json.dumps(r0, sort_keys=True))
+    names = ["OnlyKnownOutcomes", "NeverEarly", "TimeoutHonoured", "Polls", "ZeroNeverSleeps", "Negative",
+             "NegativeBeforeSyscalls", "NeverExisted", "Prompt", "Cached"]
+    for tag, body in [p for p in r.printed if p[0] == "REJECTED"]:
+        vals = tlc.parse_value("<<" + body + ">>")
+        r0 = recs[vals[0] - 1]
+        failed = [n for n, ok in zip(names, vals[1]) if not ok]
+        ctx.disagree("wait:%s:%s" % (r0["kind"], ",".join(failed)),
+                     "TLC rejects a recorded wait() execution (clauses %s): %r" % (failed, r0), r0)
+    if recs:
+        ctx.sample({"kind": "wait() execution", "record": recs[len(recs) // 2]})
+
+
 def warm(ctx):
     rd = tlc.dump_cached("Wait", consts(False), view=None, constraints=["Horizon"])
     functional.events_of(rd)
@@ -304,7 +352,7 @@ def check(ctx):
             ("never", "none"), ("child", "ValueError")}
     if need - kinds:
         raise core.Machinery("vacuity: outcome classes never enumerated: %s" % sorted(need - kinds))
-    functional.run_cases(ctx, "wait-configurations", cases, run_wait, sig_wait, chunk=60)
+    judge_wait(ctx, cases)
     check_wait_procs(ctx, 20000 if thorough else 2500)
 
 
